@@ -238,8 +238,8 @@ func genC(r *rand.Rand, i int, tier string) Case {
 	if i < len(probes) {
 		return probes[i]
 	}
-	noargs := i%2 == 0
-	multi := (i/2)%4 == 1
+	noargs := i%6 == 0
+	multi := i%2 == 1
 	return genCase(r, noargs, multi)
 }
 
@@ -388,9 +388,6 @@ func exec(x *fw.Ctx, c Case) {
 	x.Cover("program:lamfree=" + yn(lamfree))
 	if !lamfree {
 		x.Cover("avoided:lambda-in-operator-position-with-bare-outer-variable-body")
-	}
-	if c.Kind == "noargs" {
-		x.Cover("avoided:forward-call-with-arguments (parameterless program)")
 	}
 	x.Cover("avoided:funcall-without-arguments (C04 matter)")
 	var fails []failure
@@ -583,14 +580,14 @@ func exec(x *fw.Ctx, c Case) {
 	}
 
 	// ---------- family B: histories with redefinition ----------
-	// callee-first order (the last permutation) under all three ways of
-	// delivering the definitions, caller-first order under one of them
+	// callee-first order (the last permutation) and caller-first order (the
+	// first), two ways of delivering the definitions each
 	type hrun struct {
 		perm  []int
 		dmode string
 	}
 	dmodes := []string{"repl", "crepl", "compile"}
-	hruns := []hrun{{ps[len(ps)-1], "repl"}, {ps[len(ps)-1], "crepl"}, {ps[len(ps)-1], "compile"},
+	hruns := []hrun{{ps[len(ps)-1], "repl"}, {ps[0], "crepl"}, {ps[len(ps)-1], "compile"},
 		{ps[0], dmodes[(len(c.Main)+len(c.Hist))%3]}}
 	for _, hr := range hruns {
 		{
@@ -739,14 +736,14 @@ func exec(x *fw.Ctx, c Case) {
 func init() {
 	fw.Register(fw.Spec[Case]{
 		ID: "C08",
-		Rule: "3 fixed probe programs (one per listed finding), then seeded programs of 2-4 defuns (DAG calls, self recursion, mutual recursion on a decreasing " +
+		Rule: "3 fixed probe programs (forward call with arguments, caller created between two redefinitions, lambda head with a bare outer variable), then " +
+			"seeded programs of 2-4 defuns (DAG calls, self recursion, mutual recursion on a decreasing " +
 			"counter; arguments, let/let*, if/cond/when/unless, and/or, setq, dotimes, funcall/apply, lambda forms, list building, trace markers, 0-3 global variables) " +
 			"plus a main form; each program is run under the orders of its defuns (all; quick tier: 10 of the 24 orders of 4 defuns) x 8 delivery modes (form by form, " +
 			"form by form compiled, whole Code evaluated, Code.Compile, CompileString, (eval 'form), main form compiled before its callees exist, load of a file) x " +
 			"k=2..5 (one case in 12: 100) evaluations of the same code object, and under 4 redefinition histories (fresh / re-used, compiled / list-form main objects, " +
-			"1-3 redefinitions with renamed parameters); every name is fresh per treatment. Avoid sets: every second case has only parameterless functions (forward " +
-			"references without arguments, recursion on a global counter) so that placeholders stay monitored while forward calls with arguments are a listed finding; " +
-			"three histories in four redefine each function at most once (recursive ones rarely); a lambda in operator position with a bare outer variable as body is " +
+			"1-3 redefinitions with renamed parameters; every second history redefines one function repeatedly); every name is fresh per treatment. One case in six has " +
+			"only parameterless functions (recursion on a global counter). Avoid set: a lambda in operator position with a bare outer variable as body (listed finding) is " +
 			"kept to a few percent of programs; (funcall f) without arguments is never generated (C04). " +
 			"distinct = distinct program+history; non-trivial = the main form produces at least 2 trace markers",
 		N:     nCases,
